@@ -238,6 +238,16 @@ def show_shape(shape):
     return "[" + ",".join(str(int(v)) for v in shape) + "]"
 
 
+def show_start(obj, e):
+    """the object's start as a sample index into the info wave it was made of"""
+    try:
+        d = int(obj.start) - int(e.get("start", bc.START))
+        dt = int(e.get("dt", bc.DT))
+        return str(d // dt) if d % dt == 0 else f"off-grid:{d}/{dt}"
+    except Exception as ex:
+        return errname(ex)
+
+
 def seq_has_late(e):
     """does some colour's photon stream start inside the item (the object will repair its start)?"""
     return any(shared_span(e, c) == "late" for c in COLORS)
@@ -251,7 +261,7 @@ def impl_seq(case):
         try:
             obj = bc.object_from_case(e)
         except Exception as ex:
-            return [errname(ex)] * (1 if seq_has_late(e) else 2)
+            return [errname(ex)] * (2 if seq_has_late(e) else 3)
         for q in case["queries"]:
             try:
                 if q < 3:
@@ -262,7 +272,7 @@ def impl_seq(case):
                     out.append(show_shape(obj.shape))
             except Exception as ex:
                 out.append(errname(ex))
-        res = [";".join(out)]
+        res = [";".join(out), show_start(obj, e)]
         if not seq_has_late(e):
             # the same queries, each asked to a NEW object (history independence; model side: c02.kymopure/scanpure)
             fresh = []
@@ -461,6 +471,7 @@ def ops(case):
         chans = " ".join(f"{int(lead.get(c, 0))} {enc_chan(e['channels'].get(c))}" for c in COLORS)
         head = f"c02.kymoseq {e['P']}" if e["kind"] == "kymo" else f"c02.scanseq {e['fast']} {e['P']} {e['slow']} {e['L']}"
         lines = [f"{head} {iw} {chans} {enc_list(case['queries'])}"]
+        lines.append(lines[0].replace("seq ", "seqoff ", 1))
         if not seq_has_late(e):
             lines.append(lines[0].replace("seq ", "pure ", 1))
         return lines
@@ -601,8 +612,8 @@ def oracle_seq(case, ia):
         return None  # the object could not even be made: compared with the model only
     spans = {c: shared_span(e, c) for c in COLORS}
     late = [c for c in COLORS if spans[c] == "late"]
-    if not late and len(ia) > 1 and ia[1] != ia[0]:
-        fresh = ia[1].split(";")
+    if not late and len(ia) > 2 and ia[2] != ia[0]:
+        fresh = ia[2].split(";")
         i = next((j for j, (a, b) in enumerate(zip(ans, fresh)) if a != b), 0)
         return (f"history: query #{i} of the sequence {Q} on one object answered {ans[i][:160]}, a NEW object asked the "
                 f"same question first answers {fresh[i][:160] if i < len(fresh) else '?'} (the image of a colour cannot depend on what was asked before)")
@@ -652,6 +663,17 @@ def oracle_seq(case, ia):
             return (f"missing-colour: sequence {Q} on one kymograph: in the end the {c} image has shape {fin[i][0]} but the "
                     f"{COLORS[judged[0]]} image has shape {fin[judged[0]][0]} (a colour without data is a zero image of the "
                     f"SAME shape; every colour is read from the same info wave)")
+    # the item as it is NOW: its start is sample `off` of the info wave (read off the object after the sequence); every
+    # colour whose stream does not start inside THAT window is the property's reconstruction of that window
+    if len(ia) > 1 and ia[1].isdigit() and 0 < int(ia[1]) < n:
+        off = int(ia[1])
+        lead = e.get("lead") or {}
+        e2 = dict(e, iw=e["iw"][off:], lead={c: int(lead.get(c, 0)) + off for c in COLORS})
+        for i, c in enumerate(COLORS):
+            x = expected_colour(e2, c)
+            if x is not None and ans[-4 + i] != show_expected(x[0]):
+                return (f"{x[1]}: sequence {Q} on one kymograph left its start at sample {off}; the {c} image is then "
+                        f"{ans[-4 + i][:200]}, the reconstruction of the item from that start is {show_expected(x[0])[:200]}")
     if len(judged) == 3 and ans[-1] != stack_str(fin):
         return f"pixel-placement: sequence {Q}: the final rgb image {ans[-1][:200]} is not the stack of the three colour images"
     return None
@@ -1147,6 +1169,7 @@ def extra_coverage(results):
     max_samples = max_pixels = 0
     seq_n = seq_queries = seq_repaired = seq_hits = seq_fresh = 0
     totals_ok = totals_err = 0
+    seq_final_start = {}
     branches = {"no-data:zeros": 0, "no-data:no-boundary": 0, "shared-span:walk": 0, "shared-span:no-boundary": 0,
                 "starts-inside-scan": 0, "size-mismatch/other": 0}
     for r in results:
@@ -1164,7 +1187,10 @@ def extra_coverage(results):
             imgs = {a.split(" ")[0] for q, a in zip(c["queries"], ans) if q < 3 and " " in a}
             seq_repaired += 1 if len(imgs) > 1 else 0
             seq_hits += sum(max(0, sum(1 for q, a in zip(c["queries"], ans) if q == col and " " in a) - 1) for col in range(3))
-            seq_fresh += 1 if len(r["impl"]) > 1 else 0
+            seq_fresh += 1 if len(r["impl"]) > 2 else 0
+            if len(r["impl"]) > 1:
+                seq_final_start[r["impl"][1] if r["impl"][1] in ("0",) or not r["impl"][1].isdigit() else "moved"] = \
+                    seq_final_start.get(r["impl"][1] if r["impl"][1] in ("0",) or not r["impl"][1].isdigit() else "moved", 0) + 1
         if c["op"] == "sum":
             n = bc.count_pixels(c["iw"])
         else:
@@ -1236,6 +1262,7 @@ def extra_coverage(results):
         "sequence_repeated_colour_answers": seq_hits,
         "sequences_where_a_colour_changed_shape": seq_repaired,
         "sequences_replayed_query_by_query_on_new_objects": seq_fresh,
+        "sequence_final_start": seq_final_start,
         "image_totals_compared": totals_ok,
         "image_total_errors_compared": totals_err,
         "colour_pixels_branches": branches,
